@@ -95,7 +95,7 @@ class C03(Prop):
                    for _ in range(rng.randint(1, 5))]
             reads = []
             for _ in range(5):
-                s0 = rng.choice([None, base + rng.randrange(-7200, 3600) * 1_000_000])
+                s0 = rng.choice([None, base + rng.randrange(-7200, 3600) * 1_000_000 + rng.choice([0, 0, 1, 999, 500_000])])
                 e0 = rng.choice([None, base + rng.randrange(-3600, 7200) * 1_000_000 + rng.choice([0, 999, 500_000])])
                 if s0 is not None and e0 is not None and e0 < s0:
                     s0, e0 = e0, s0
